@@ -39,7 +39,7 @@ pub fn main() {
          (case hash, schedule)",
     );
     run.assume("resolvers are deterministic functions of (parent, field, arguments): the data world guarantees it");
-    let cases = run.scale(8_000, 120_000);
+    let cases = run.scale(8_000, 40_000);
     let cap = run.scale(300, 2000) as usize;
     run.set_floors(2000, 300);
     run.require_counter("cases_with_faults");
